@@ -2,8 +2,7 @@
    code from the property, non-vacuity examples for the hypotheses used in Props/C04.v, and an
    example of a stale result with is_bipartitions_updated = True *)
 From Coq Require Import ZArith List Bool Lia Permutation Relations.
-From DV Require Import Model.PyPrims Model.Tree Model.C04Model Proofs.C04Lists Proofs.C04Loops Proofs.C04Enc
-  Proofs.C04Main Proofs.C04Redraw Proofs.C04WF.
+From DV Require Import Model.PyPrims Model.Tree Model.C04Model Proofs.C04Lists Proofs.C04Loops Proofs.C04Core.
 Import ListNotations.
 Open Scope Z_scope.
 
@@ -16,19 +15,19 @@ Definition one := Some 1024.
 Definition w_nolen := Nd 0 None [Lf 1 0 None; Lf 2 1 None; Lf 3 2 None].
 Definition w_len := Nd 0 None [Lf 1 0 one; Lf 2 1 one; Lf 3 2 one].
 
-Lemma defined_sym_refuted_l :
+Lemma defined_sym_refuted_l : forall mg,
   exists acc s1 s2,
     well_formed acc s1 = true /\ well_formed acc s2 = true /\
-    wrf Current acc s1 s2 = Ok 3072 /\ wrf Current acc s2 s1 = Err ValueErr /\
-    euclid_sq Current acc s1 s2 = Ok 3145728 /\ euclid_sq Current acc s2 s1 = Err ValueErr.
-Proof. exists acc4, (w_nolen, Some false), (w_len, Some false). vm_compute. repeat split; reflexivity. Qed.
+    wrf mg Current acc s1 s2 = Ok 3072 /\ wrf mg Current acc s2 s1 = Err ValueErr /\
+    euclid_sq mg Current acc s1 s2 = Ok 3145728 /\ euclid_sq mg Current acc s2 s1 = Err ValueErr.
+Proof. intro mg. exists acc4, (w_nolen, Some false), (w_len, Some false). destruct mg; vm_compute; repeat split; reflexivity. Qed.
 
 (* the two candidate repairs are symmetric on the witness *)
 Example repaired_on_witness :
-  wrf ZeroBoth acc4 (w_nolen, Some false) (w_len, Some false) = Ok 3072 /\
-  wrf ZeroBoth acc4 (w_len, Some false) (w_nolen, Some false) = Ok 3072 /\
-  wrf RefuseBoth acc4 (w_nolen, Some false) (w_len, Some false) = Err ValueErr /\
-  wrf RefuseBoth acc4 (w_len, Some false) (w_nolen, Some false) = Err ValueErr.
+  wrf false ZeroBoth acc4 (w_nolen, Some false) (w_len, Some false) = Ok 3072 /\
+  wrf false ZeroBoth acc4 (w_len, Some false) (w_nolen, Some false) = Ok 3072 /\
+  wrf false RefuseBoth acc4 (w_nolen, Some false) (w_len, Some false) = Err ValueErr /\
+  wrf false RefuseBoth acc4 (w_len, Some false) (w_nolen, Some false) = Err ValueErr.
 Proof. vm_compute. repeat split; reflexivity. Qed.
 
 (* a not-rooted tree whose seed keeps two children after encode_bipartitions():
@@ -39,27 +38,27 @@ Definition w_uni' := Nd 0 None [Lf 5 2 (Some 5120); Nd 1 one [Nd 2 one [Lf 3 0 o
 Lemma redraw_swap i x l e a b : redraw (T i x l e [a; b]) (T i x l e [b; a]).
 Proof. apply rt_step. apply R_here. apply perm_swap. Qed.
 
-Lemma zero_on_redrawing_refuted_l :
-  exists p acc r t t',
+Lemma zero_on_redrawing_refuted_l : forall mg p,
+  exists acc r t t',
     redraw t t' /\ well_formed acc (t, r) = true /\ well_formed acc (t', r) = true /\
-    rf acc (t, r) (t', r) = Ok 0 /\ wrf p acc (t, r) (t', r) = Ok 3072 /\ euclid_sq p acc (t, r) (t', r) = Ok 9437184.
+    rf mg acc (t, r) (t', r) = Ok 0 /\ wrf mg p acc (t, r) (t', r) = Ok 3072 /\ euclid_sq mg p acc (t, r) (t', r) = Ok 9437184.
 Proof.
-  exists Current, acc4, (Some false), w_uni, w_uni'. split; [apply redraw_swap|].
-  vm_compute. repeat split; reflexivity.
+  intros mg p. exists acc4, (Some false), w_uni, w_uni'. split; [apply redraw_swap|].
+  destruct mg, p; vm_compute; repeat split; reflexivity.
 Qed.
 
 (* ... and on the trees left behind by that call the same call returns 0: the normalisation is
    not idempotent *)
 Example second_call_differs :
   let w := world2 acc4 (w_uni, Some false) (w_uni', Some false) in
-  let '(r1, w1) := do_wrf Current w 0 1 false in
-  let '(r2, _) := do_wrf Current w1 0 1 false in
+  let '(r1, w1) := do_wrf false Current w 0 1 false in
+  let '(r2, _) := do_wrf false Current w1 0 1 false in
   r1 = Ok 3072 /\ r2 = Ok 0.
 Proof. vm_compute. split; reflexivity. Qed.
 
 (* the smallest case: two leaves *)
 Example two_leaf_collision :
-  wrf Current acc4 (Nd 0 None [Lf 1 0 one; Lf 2 1 (Some 2048)], Some false)
+  wrf false Current acc4 (Nd 0 None [Lf 1 0 one; Lf 2 1 (Some 2048)], Some false)
                    (Nd 0 None [Lf 2 1 (Some 2048); Lf 1 0 one], Some false) = Ok 1024.
 Proof. vm_compute. reflexivity. Qed.
 
@@ -70,8 +69,9 @@ Definition w_drop' := Nd 0 None [Nd 4 one [Lf 5 2 one; Lf 6 3 one]; Nd 1 None [L
 Lemma child_order_invariant_refuted_l :
   exists p acc r t t',
     redraw t t' /\ well_formed acc (t, r) = true /\ well_formed acc (t', r) = true /\
-    nodupb (splits acc (t, r)) = true /\ nodupb (splits acc (t', r)) = true /\
-    rf acc (t, r) (t', r) = Ok 0 /\ wrf p acc (t, r) (t', r) = Ok 1024.
+    nodupb (splits false acc (t, r)) = true /\ nodupb (splits false acc (t', r)) = true /\
+    rf false acc (t, r) (t', r) = Ok 0 /\ wrf false p acc (t, r) (t', r) = Ok 1024 /\
+    wrf true p acc (t, r) (t', r) = Ok 0.
 Proof.
   exists Current, acc4, (Some false), w_drop, w_drop'. split; [apply redraw_swap|].
   vm_compute. repeat split; reflexivity.
@@ -85,35 +85,42 @@ Definition w_u1 := Nd 0 None [Lf 1 0 one; Lf 2 1 one; Nd 3 (Some 2048) [Lf 4 2 o
 Example hypotheses_satisfiable :
   well_formed acc4 (w_r1, Some true) = true /\ well_formed acc4 (w_r2, Some true) = true /\
   well_formed acc4 (w_u1, None) = true /\
-  nodupb (splits acc4 (w_r1, Some true)) = true /\ nodupb (splits acc4 (w_r2, Some true)) = true /\
-  nodupb (splits acc4 (w_u1, None)) = true /\
-  rf acc4 (w_r1, Some true) (w_r2, Some true) = Ok 4 /\
-  fpfn acc4 (w_r1, Some true) (w_r2, Some true) = Ok (2, 2) /\
-  wrf Current acc4 (w_r1, Some true) (w_r2, Some true) = Ok 6144 /\
-  wrf Current acc4 (w_r2, Some true) (w_r1, Some true) = Ok 6144 /\
-  (exists v, wrf Current acc4 (w_u1, None) (w_u1, None) = Ok v).
+  nodupb (splits false acc4 (w_r1, Some true)) = true /\ nodupb (splits false acc4 (w_r2, Some true)) = true /\
+  nodupb (splits false acc4 (w_u1, None)) = true /\
+  rf false acc4 (w_r1, Some true) (w_r2, Some true) = Ok 4 /\
+  fpfn false acc4 (w_r1, Some true) (w_r2, Some true) = Ok (2, 2) /\
+  wrf false Current acc4 (w_r1, Some true) (w_r2, Some true) = Ok 6144 /\
+  wrf false Current acc4 (w_r2, Some true) (w_r1, Some true) = Ok 6144 /\
+  (exists v, wrf false Current acc4 (w_u1, None) (w_u1, None) = Ok v).
 Proof. vm_compute. repeat split; try reflexivity. eexists; reflexivity. Qed.
 
-Example no_basal_examples : no_basal (w_r1, Some true) /\ no_basal (w_u1, None).
-Proof. split; [left; reflexivity | right; vm_compute; lia]. Qed.
+(* the seed condition of child_order_invariant_partial on a not-rooted tree with two internal seed children *)
+Definition w_b2 := Nd 0 None [Nd 1 one [Lf 2 0 one; Lf 3 1 one]; Nd 4 one [Lf 5 2 one; Lf 6 3 one]].
+Example seed_condition_satisfiable :
+  well_formed acc4 (w_b2, Some false) = true /\ nodupb (splits false acc4 (w_b2, Some false)) = true /\
+  seed_ok false acc4 (w_b2, Some false).
+Proof.
+  split; [reflexivity|]. split; [reflexivity|]. intros _ c0 c1 Hk _. cbn [fst t_kids w_b2 Nd] in Hk.
+  inversion Hk; subst. split; [right; split; discriminate | reflexivity].
+Qed.
 
 (* staleness is expressible: after an edit (here: the tree is replaced by the other topology) a call
    with is_bipartitions_updated = True still answers from the cached encoding, the default call
    does not *)
 Example stale_with_flag_fresh_without :
   let w0 := world2 acc4 (w_r1, Some true) (w_r1, Some true) in
-  let '(r0, w1) := step Current w0 (OpSymDiff 0 1 false) in
-  let '(_, w2) := step Current w1 (OpEdit 1 w_r2 (Some true) [] false false) in
-  let '(r_stale, w3) := step Current w2 (OpSymDiff 0 1 true) in
-  let '(r_fresh, _) := step Current w3 (OpSymDiff 0 1 false) in
+  let '(r0, w1) := step false Current w0 (OpSymDiff 0 1 false) in
+  let '(_, w2) := step false Current w1 (OpEdit 1 w_r2 (Some true) [] false false) in
+  let '(r_stale, w3) := step false Current w2 (OpSymDiff 0 1 true) in
+  let '(r_fresh, _) := step false Current w3 (OpSymDiff 0 1 false) in
   r0 = OInt 0 /\ r_stale = OInt 0 /\ r_fresh = OInt 4.
 Proof. vm_compute. repeat split; reflexivity. Qed.
 
 (* error branches: a leaf taxon outside the namespace, and a tree whose leaves carry no taxon *)
 Example unknown_taxon_is_key_error :
-  rf acc4 (Nd 0 None [Lf 1 0 None; Lf 2 9 None], None) (w_len, None) = Err KeyErr.
+  rf false acc4 (Nd 0 None [Lf 1 0 None; Lf 2 9 None], None) (w_len, None) = Err KeyErr.
 Proof. vm_compute. reflexivity. Qed.
 
 Example no_taxa_is_assertion_error :
-  rf acc4 (Nd 0 None [T 1 None None None []; T 2 None None None []], None) (w_len, None) = Err AssertErr.
+  rf false acc4 (Nd 0 None [T 1 None None None []; T 2 None None None []], None) (w_len, None) = Err AssertErr.
 Proof. vm_compute. reflexivity. Qed.
